@@ -317,7 +317,7 @@ class Ribosome:
         sequence = self._process_loops(sequence, context)
 
         # Process includes
-        sequence = self._process_includes(sequence, context)
+        sequence = self._process_includes(sequence, context, warnings)
 
         # Process variable substitutions
         sequence = self._process_variables(sequence, context, warnings)
@@ -527,7 +527,12 @@ class Ribosome:
 
         return result
 
-    def _process_includes(self, sequence: str, context: dict[str, Any]) -> str:
+    def _process_includes(
+        self,
+        sequence: str,
+        context: dict[str, Any],
+        warnings: list[str] | None = None
+    ) -> str:
         """
         Process include directives in the template sequence.
 
@@ -557,6 +562,9 @@ class Ribosome:
             template_name = match.group(1)
             if template_name in self.templates:
                 protein = self.translate(template_name, **context)
+                if warnings is not None:
+                    # The included text is final: surface what it reported
+                    warnings.extend(protein.warnings)
                 return _shield(protein.sequence)
             return f"[Unknown template: {template_name}]"
 
